@@ -152,6 +152,15 @@ Proof. exact tsmp_same. Qed.
 Check C11_decimal_stable : forall k a b, dec_same a b -> tsmp k a = tsmp k b.
 Print Assumptions C11_decimal_stable.
 
+(* rust_decimal renders into a 32-byte buffer and panics beyond it (str.rs:64):
+   never for the precisions the writer uses on a valid decimal *)
+Theorem C11_display_fits : forall d k, valid_dec d = true -> (k <= 2)%nat ->
+  fmt_panics (Nat.max (trimmed_prec d) k) d = false.
+Proof. exact fmt_fits. Qed.
+Check C11_display_fits : forall d k, valid_dec d = true -> (k <= 2)%nat ->
+  fmt_panics (Nat.max (trimmed_prec d) k) d = false.
+Print Assumptions C11_display_fits.
+
 Theorem C11_date_roundtrip : forall d, valid_date d = true ->
   parse_date (show_date d) = Ok d /\ edges_ok (show_date d) = true.
 Proof. exact date_roundtrip. Qed.
